@@ -44,7 +44,7 @@ func (g *Gen) once(key string) bool {
 	return true
 }
 
-var customUnderlying = map[string]string{"StrCustom": "string", "BoolCustom": "bool", "StringCustom": "string"}
+var customUnderlying = map[string]string{"StrCustom": "string", "BoolCustom": "bool", "StringCustom": "string", "Under_Score": "string"}
 
 // typeExprFor: the attr.Type expression of a configured time / duration type; P00 configures a
 // constructor (UseRFC3339Time()).
